@@ -48,6 +48,11 @@ def _literal(e, depth=0):
     if isinstance(e, ast.UnaryOp) and isinstance(e.op, ast.USub):
         return isinstance(e.operand, ast.Constant)
     if isinstance(e, ast.Call) and isinstance(e.func, ast.Name) and \
+            e.func.id in ('float', 'int', 'str', 'bytes', 'bool') and \
+            len(e.args) == 1 and not e.keywords and isinstance(
+                e.args[0], ast.Constant):
+        return True         # float('inf'): a value, equal wherever written
+    if isinstance(e, ast.Call) and isinstance(e.func, ast.Name) and \
             e.func.id == 'dict' and not e.args and e.keywords and all(
             k.arg is not None and _literal(k.value, depth + 1)
             for k in e.keywords):
